@@ -89,6 +89,9 @@ func main() {
 	sweep(env, rep, only, facts)
 	if only == nil {
 		blockingQueues(env, rep)
+		partialWakeups(env, rep)
+		containerArgProbes(env, rep)
+		readLockWriterStress(env, rep, facts)
 		sequential(env, rep, rng.Fork(), fams)
 		lockstep(env, rep, fams)
 		oracleLockstep(env, rep, facts)
